@@ -36,6 +36,11 @@ def main():
     import logging
 
     logging.disable(logging.CRITICAL)  # Rally logs expected failures at ERROR level; the checks observe behaviour, not logs
+    import warnings
+
+    # AsyncIoAdapter.run() creates the executors' coroutines before it awaits them: when an injected fault makes it fail in between,
+    # Python notes at garbage collection that they never ran
+    warnings.filterwarnings("ignore", message="coroutine .* was never awaited", category=RuntimeWarning)
     from vlib import core
 
     try:
